@@ -10,6 +10,7 @@ code -> spec : random chains of the real wrappers over fault-injecting members (
 """
 import json, os
 import vlib
+from checks import cli_common
 
 TRACE_CFG = """SPECIFICATION TSpec
 CONSTANT TraceFile = "@TRACE@"
@@ -54,6 +55,8 @@ def drive(rep, pid, tier, seed):
         rep.case(sc, sc[0].get("chain", {}).get("t") != "leaf" and len(sc) > 3)
     for sc in scens[:2]:
         rep.sample({"chain": sc[0].get("chain"), "members": sc[0].get("members"), "ops": sc[1:10]})
+    # the chain the command line builds from -s / -c / "a|b" / --cache-repair: the real binary over local and HTTP stores
+    cli_common.run(rep, vlib.workdir("C11-cli"), seed, "chain", tier == "thorough")
     rep.rule = ("case = random chain (router of leaves/groups, cache +- repair over leaf/router/failover group, dedup or swap wrapper, writable single store) over "
                 "2-7 members (in-memory or real LocalStore, compressed or not, verifying or not) with random contents {absent, good, corrupt} for 3 IDs x 25-30 "
                 "operations (GetChunk/HasChunk/StoreChunk, member starts/stops failing, chunk appears/disappears/gets corrupted); plus Swap-under-load and "
@@ -67,6 +70,10 @@ def run(rep, tier, seed):
 
 
 def replay(path):
+    import json as _json
+    _r = cli_common.replay_if_cli(_json.load(open(path)), vlib.workdir("C11-cli-replay"))
+    if _r is not None:
+        return _r
     d = json.load(open(path))
     work = vlib.workdir("C11-replay")
     f = os.path.join(work, "trace.ndjson")
